@@ -234,19 +234,23 @@ void run_history(Tape &t, Ctx &c) {
     }
     // ---- history
     int hlen = static_cast<int>(t.u(0, 8));
-    c.desc << "history " << ci.name << " x " << RelaxName<Rlx>::name() << " " << info.family << "/" << info.graph << " n=" << n << (ex.shuffle ? " (unsorted input rows)" : "") << pd.str()
+    // zero-copy use: the hierarchy is built from a shared_ptr (amg keeps the user's matrix, no copy, no sorting) and the history may change the
+    // values of the installed system matrix IN PLACE and call rebuild() with that same pointer
+    bool zero_copy = t.b();
+    if (zero_copy && ex.shuffle) K0 = sorted_copy(K0); // the shared_ptr constructor does not sort: hand over sorted rows
+    c.desc << "history " << ci.name << " x " << RelaxName<Rlx>::name() << " " << info.family << "/" << info.graph << " n=" << n << (zero_copy ? " (zero-copy: built from shared_ptr)" : ex.shuffle ? " (unsorted input rows)" : "") << pd.str()
            << " coarse_enough=" << prm.coarse_enough << " max_levels=" << prm.max_levels << " direct_coarse=" << prm.direct_coarse << " npre=" << prm.npre << " npost=" << prm.npost
            << " ncycle=" << prm.ncycle << " pre_cycles=" << prm.pre_cycles << " allow_rebuild=" << prm.allow_rebuild << " threads=" << c.threads << " ops=" << hlen << " K=" << dump_small(K0, 12) << " |";
     c.label("coarsening:" + ci.name); c.label(std::string("relax:") + RelaxName<Rlx>::name()); c.label("fam:" + info.family);
     c.label(n <= 12 ? "n<=12" : n <= 60 ? "n<=60" : "n>60");
-    if (kn.b > 1) c.label("block_size=2"); if (kn.k) c.label("nullspace=" + std::to_string(kn.k)); if (ex.shuffle) c.label("unsorted-input");
+    if (kn.b > 1) c.label("block_size=2"); if (kn.k) c.label("nullspace=" + std::to_string(kn.k)); if (zero_copy) c.label("zero-copy-construction"); else if (ex.shuffle) c.label("unsorted-input");
     if (!info.struct_symmetric) c.label("nonsym-pattern");
 
     // ---- construction
     std::unique_ptr<AMG> amg;
     {
         auto k0 = to_crs<double>(K0);
-        try { amg.reset(new AMG(*k0, prm)); }
+        try { if (zero_copy) amg.reset(new AMG(k0, prm)); else amg.reset(new AMG(*k0, prm)); }
         catch (const ZeroCoarseLevel &z) {
             // the recording policy stops the construction here: amg would go on to build a 0 x 0 coarse matrix and crash in the direct
             // solver (that was the defect fixed by ef9207a: all aggregates smaller than nullspace.cols must be signalled as an empty level)
@@ -256,6 +260,7 @@ void run_history(Tape &t, Ctx &c) {
     }
     std::vector<LevelView> lv = amgcl_verif::access::levels(*amg);
     const size_t L = lv.size(), T = log->transfers.size();
+    if (zero_copy) VF_REQUIRE(lv.size() >= 1 && lv[0].A && same_bits(from_crs(*amg->system_matrix_ptr()), K0), "zero-copy construction: the installed system matrix differs from the matrix handed over");
     c.label("levels=" + std::to_string(std::min<size_t>(L, 5)) + (L >= 5 ? "+" : ""));
     VF_REQUIRE(L >= 1, "hierarchy has no level");
     VF_REQUIRE(log->coarse.size() == T, "transfer_operators succeeded " << T << " times but coarse_operator was called " << log->coarse.size() << " times");
@@ -355,7 +360,11 @@ void run_history(Tape &t, Ctx &c) {
     Csr<double> Kcur = K0;
     int rebuilds = 0, applies = 0;
     for (int op = 0; op < hlen; ++op) {
-        int kind = static_cast<int>(t.u(0, 4)); // 0 apply, 1 rebuild(perturbed values), 2 rebuild(scaled 2^k), 3 rebuild(original), 4 rebuild(other pattern)
+        // 0 apply, 1 rebuild(perturbed values), 2 rebuild(scaled 2^k), 3 rebuild(original), 4 rebuild(other pattern): a freshly allocated matrix is passed;
+        // zero-copy histories also draw 5..7: change the values of the installed system matrix in place (damp off-diagonals / scale 2^k / restore the
+        // original values) and call rebuild() with the very same shared_ptr
+        int kind = static_cast<int>(t.u(0, zero_copy ? 7 : 4));
+        if (kind >= 5 && !prm.allow_rebuild) kind -= 4; // a refused rebuild must leave everything untouched: do not alias-modify the matrix then
         if (kind == 0) {
             std::vector<double> v = gen_vec(t, static_cast<size_t>(n));
             c.desc << " apply";
@@ -373,7 +382,22 @@ void run_history(Tape &t, Ctx &c) {
         if (kind == 1) { Knew = ex(perturb(t, A0, false)); c.desc << " rebuild(perturbed)"; c.label("op:rebuild-perturbed"); }
         else if (kind == 2) { int k = static_cast<int>(t.u(1, 6)); k = k <= 3 ? k : 3 - k; Knew = scaled_copy(K0, k); c.desc << " rebuild(2^" << k << "*A)"; c.label("op:rebuild-scaled"); }
         else if (kind == 3) { Knew = K0; c.desc << " rebuild(original)"; c.label("op:rebuild-original"); }
-        else { Knew = ex(perturb(t, A0, true)); c.desc << " rebuild(other pattern)"; c.label("op:rebuild-other-pattern"); }
+        else if (kind == 4) { Knew = ex(perturb(t, A0, true)); c.desc << " rebuild(other pattern)"; c.label("op:rebuild-other-pattern"); }
+        std::shared_ptr<Mat> alias; // non-null: in-place modification of the installed matrix + rebuild(same pointer)
+        if (kind >= 5) {
+            Csr<double> cur = sorted_copy(Kcur);
+            if (kind == 7 && !(cur.ptr == K0s.ptr && cur.col == K0s.col)) { kind = 3; Knew = K0; c.desc << " rebuild(original)"; c.label("op:rebuild-original"); } // pattern was changed meanwhile: not restorable in place
+            else {
+                alias = amg->system_matrix_ptr();
+                VF_REQUIRE(alias && same_bits(from_crs(*alias), cur), "op " << op << ": the installed system matrix is not the (row-sorted) current matrix");
+                if (kind == 5) {
+                    Knew = cur;
+                    for (ptrdiff_t i = 0; i < Knew.n; ++i) { double g = t.uni(1.0, 2.0); for (ptrdiff_t j = Knew.ptr[i]; j < Knew.ptr[i + 1]; ++j) Knew.val[j] *= Knew.col[j] == i ? g : t.uni(0.5, 1.0); }
+                    c.desc << " in-place(damp)+rebuild(same ptr)"; c.label("op:inplace-perturbed");
+                } else if (kind == 6) { int k = static_cast<int>(t.u(1, 6)); k = k <= 3 ? k : 3 - k; Knew = scaled_copy(cur, k); c.desc << " in-place(2^" << k << ")+rebuild(same ptr)"; c.label("op:inplace-scaled"); }
+                else { Knew = K0s; c.desc << " in-place(original values)+rebuild(same ptr)"; c.label("op:inplace-original"); }
+            }
+        }
         auto kc = to_crs<double>(Knew);
         if (!prm.allow_rebuild) {
             bool threw = false;
@@ -385,14 +409,19 @@ void run_history(Tape &t, Ctx &c) {
         }
         log->clear();
         bool rebuilt = true; std::string why;
-        try { amg->rebuild(*kc); } catch (const std::runtime_error &e) { rebuilt = false; why = e.what(); }
+        try {
+            if (alias) { for (ptrdiff_t j = 0; j < Knew.nnz(); ++j) alias->val[j] = Knew.val[j]; amg->rebuild(alias); }
+            else amg->rebuild(*kc);
+        } catch (const std::runtime_error &e) { rebuilt = false; why = e.what(); }
         std::unique_ptr<FreshAMG> fresh;
         bool fresh_ok = true;
         try { fresh.reset(new FreshAMG(*kc, fprm)); } catch (const std::runtime_error &) { fresh_ok = false; }
         VF_REQUIRE(rebuilt == fresh_ok, "op " << op << ": rebuild " << (rebuilt ? "succeeded" : "failed (" + why + ")") << " but assembling a fresh hierarchy from the same matrix and operators " << (fresh_ok ? "succeeded" : "failed"));
         if (!rebuilt) { c.label("rebuild-rejected"); c.desc << " (rejected: " << why << ")"; break; } // the object is in an unspecified state after a throwing rebuild
         ++rebuilds;
-        Kcur = Knew; is_orig = (kind == 3); pending_changed = (kind == 1 || kind == 4 || kind == 2);
+        bool restored = (kind == 3 || kind == 7);
+        Kcur = Knew; is_orig = restored; pending_changed = !restored;
+        if (alias) { VF_REQUIRE(amg->system_matrix_ptr() == alias, "op " << op << ": rebuild(same pointer) replaced the installed system matrix object"); c.label("rebuild-same-pointer"); }
         bool fin = true; for (auto &r : log->coarse) fin = fin && all_finite(r.Ac);
         VF_REQUIRE(fin, "op " << op << ": rebuild produced non-finite coarse matrices");
         std::vector<LevelView> lw = amgcl_verif::access::levels(*amg);
@@ -413,7 +442,7 @@ void run_history(Tape &t, Ctx &c) {
         std::vector<double> x = amg_apply(*amg, v0);
         VF_REQUIRE(same_bits(x, amg_apply(*fresh, v0)), when << ": apply(v0) differs from a fresh hierarchy assembled from A' with the same transfer operators");
         if (pending_changed) changed_then_applied = true;
-        if (kind == 3) for (auto &io : orig_io) VF_REQUIRE(same_bits(amg_apply(*amg, io.first), io.second), when << ": rebuild(original) did not restore the original action");
+        if (restored) for (auto &io : orig_io) VF_REQUIRE(same_bits(amg_apply(*amg, io.first), io.second), when << ": rebuild(original) did not restore the original action");
         else if (same_bits(x, orig_io[0].second)) c.label("changed-matrix-same-action"); // not asserted; label only
     }
     c.nontrivial = L >= 2 && changed_then_applied && prm.pre_cycles >= 1;
